@@ -2040,7 +2040,8 @@ pub mod verif {
                 let mut infos = Vec::new();
                 for state in 0..size {
                     for symbol in 0..=255u8 {
-                        if let Some(to) = dfa.transition(DFAState::verif_from_index(state), symbol) {
+                        if let Some(to) = dfa.transition(DFAState::verif_from_index(state), symbol)
+                        {
                             transitions.push((state, symbol, to.verif_index()));
                         }
                     }
